@@ -32,6 +32,7 @@ DECIDED = [
     "C04.7 re-entrancy (max_concurrent_tries store) only after waiting longer than the test duration on the same node",
     "C04.8 occupied bounce (reset, bounded sleep, continue, no traversal in the same iteration)",
     "C04.10 premise of the exclusion argument: equivalent nodes are bridged symmetrically at every creation site (all pairs in the update tool)",
+    "C04.11 shared_started_workers covers the node and every bridged copy; a fresh node is not started",
 ]
 NOT_DECIDED = ["overlap when a test overruns its timeout", "completeness of bridging (C09)"]
 MIN_INSTANCES = 25
@@ -168,6 +169,11 @@ def run(ctx: Ctx) -> None:
 
     ctx.call(GR.bridge_table, "10b")
     ctx.call(GR.bridging_sites, "10")
+    from . import atoms as A
+
+    ctx.call(A.definitions, "11", only=('shared_started_workers','shared_finished_workers','bridged_nodes'))
+    ctx.call(A.involved_workers, "11i")
+    ctx.call(A.fresh_state, "11f")
 
 
 G = "cartgraph/graph.py"
